@@ -102,7 +102,7 @@ def case_c(case):
     ir = IR(P.layout)
     I = new_interp(P)
     res = {"paths": 0, "violations": [], "case": list(case)}
-    cfg = {"prefix": "OP"} if (prefix and lang in ("swift", "kotlin")) else {}
+    cfg = {"prefix": "Op"} if (prefix and lang in ("swift", "kotlin")) else {}
 
     def syms():
         return [z3.BitVec("r%d" % i, 32) for i in range(3)]
@@ -171,8 +171,8 @@ def case_c(case):
                     res["violations"].append({"kind": "name-mismatch", "role": (pre + "@" + suffix) if (pre or suffix) else "type name", "a": ev(sk.terms(first)), "b": ev(sk.terms(sp)), "name": ev(rc),
                                               "line_a": ln(first), "line_b": ln(sp)})
                     break
-        if bkind == "generic_struct" and cfg.get("prefix") and re.search(r"\bOPT\b", t):
-            res["violations"].append({"kind": "generic-parameter-prefixed", "role": "generic parameter", "a": "T", "b": "OPT", "name": None, "line_a": "", "line_b": ""})
+        if bkind == "generic_struct" and cfg.get("prefix") and re.search(r"\bOpT\b", t):
+            res["violations"].append({"kind": "generic-parameter-prefixed", "role": "generic parameter", "a": "T", "b": "OpT", "name": None, "line_a": "", "line_b": ""})
     return finish_case(I, res)
 
 
@@ -335,11 +335,11 @@ def case_generic_param(case):
         if r.variant == 0:
             raise Unsupported("vacuity: nothing parsed")
         pd = bharness.reconcile_single(I, r.fields[0])
-        cfg = {"prefix": "OP"} if prefix else {}
+        cfg = {"prefix": "Op"} if prefix else {}
         ok, w, _ = bharness.generate(I, lang, pd, cfg=cfg)
         return ok, w
 
-    pre = "OP" if prefix and lang in ("swift", "kotlin") else ""
+    pre = "Op" if prefix and lang in ("swift", "kotlin") else ""
     for kind, out, pc in I.explore(entry, max_paths=100):
         res["paths"] += 1
         if kind == "panic" or not out[0]:
@@ -380,15 +380,15 @@ def native_generic_param(nat, case, v):
     src = GP_SHAPES[shape].replace("PLACEG", g)
     cfg = dict(bharness.DEFAULT_CFG.get(lang, {}))
     if prefix and lang in ("swift", "kotlin"):
-        cfg["prefix"] = "OP"
+        cfg["prefix"] = "Op"
     real = nat.ask({"op": "generate", "lang": lang, "files": [{"source": src}], "config": cfg})
     out = real.get("out", {}).get("", None)
     if out is None:
         return None, str(real)[:200], src, cfg
     if v["kind"] == "generic-parameter-prefixed":
-        if re.search(r"(?<![\w])OP%s(?![\w])" % re.escape(g), out):
-            return True, "%s with prefix OP on `%s`: the generic parameter is written `OP%s` (%s)" % (lang, src.replace("\n", " "), g, v.get("line")), src, cfg
-        return False, "no OP%s in the real output" % g, src, cfg
+        if re.search(r"(?<![\w])Op%s(?![\w])" % re.escape(g), out):
+            return True, "%s with prefix Op on `%s`: the generic parameter is written `Op%s` (%s)" % (lang, src.replace("\n", " "), g, v.get("line")), src, cfg
+        return False, "no Op%s in the real output" % g, src, cfg
     if v.get("line") and v["line"].replace(v.get("param", "T"), g) in out or (v.get("line") and v["line"] in out):
         return True, "%s on `%s`: `%s` uses %s without declaring it" % (lang, src.replace("\n", " "), v["line"], g), src, cfg
     return False, "header line not found in the real output", src, cfg
@@ -413,7 +413,7 @@ def run(rep, tier, only=None):
                             continue
                         cases.append((lang, bk, ren, pos, prefix))
     rep.bounds = {"referenced item": B_KINDS, "rename": "absent / present with a symbolic 3-char name [A-Z][a-z][a-z]", "reference positions": POSITIONS,
-                  "languages": LANGS, "prefix": "Swift/Kotlin with and without prefix OP (quick: rotated third with prefix)"}
+                  "languages": LANGS, "prefix": "Swift/Kotlin with and without prefix Op (quick: rotated third with prefix)"}
     rep.outside = ["references across crates (multi-file; C14)", "more than one referring item", "const types"]
     rep.assumptions = ["tokens inside comments / docstrings may quote the Rust name and are ignored", "a token denotes B if it contains the (symbolic) new name or the original name; tokens are grouped by the text following the name"]
     reported = set()
@@ -436,7 +436,7 @@ def run(rep, tier, only=None):
             src = render(case, name)
             cfg = dict(bharness.DEFAULT_CFG.get(case[0], {}))
             if case[4] and case[0] in ("swift", "kotlin"):
-                cfg["prefix"] = "OP"
+                cfg["prefix"] = "Op"
             real = nat.ask({"op": "generate", "lang": case[0], "files": [{"source": src}], "config": cfg})
             rep.validated += 1
             out = real.get("out", {}).get("", None)
